@@ -13,7 +13,7 @@ For one property it
 import argparse, fcntl, hashlib, json, os, re, subprocess, sys, time, glob, shutil
 
 V = os.environ.get('VERIF_ROOT') or os.path.dirname(os.path.dirname(os.path.abspath(__file__)))
-REPO = '/repo'
+REPO = os.environ.get('VERIF_REPO') or '/repo'
 LEAN = V + '/lean'
 BUILD = V + '/build'
 ALLOWED_AXIOMS = {'propext', 'Classical.choice', 'Quot.sound'}
@@ -121,7 +121,7 @@ def forbidden_tokens():
 # ---------------------------------------------------------------------------------------
 
 def build_harness():
-    r = sh([V + '/tools/build_harness.sh'], env=dict(GOENV, VERIF_ROOT=V))
+    r = sh([V + '/tools/build_harness.sh'], env=dict(GOENV, VERIF_ROOT=V, VERIF_REPO=REPO))
     return r.returncode == 0, r.stdout + r.stderr
 
 
